@@ -154,7 +154,7 @@ var sinkCfg = zapcore.EncoderConfig{MessageKey: "msg", LevelKey: "level", Encode
 
 func sinkFaults(r *ev.Run) {
 	maxK := r.N(3, 4)
-	seqLen := r.N(2, 5)
+	seqLen := r.N(3, 5)
 	total := 0
 	for k := 1; k <= maxK; k++ {
 		nvec := 1
@@ -202,7 +202,7 @@ func sinkFaults(r *ev.Run) {
 				for e := 0; e < seqLen; e++ {
 					names := make([]string, k)
 					errs := make([]error, k)
-					lvl := []zapcore.Level{zapcore.InfoLevel, zapcore.ErrorLevel, zapcore.DPanicLevel, zapcore.WarnLevel, zapcore.DebugLevel}[e%5]
+					lvl := []zapcore.Level{zapcore.InfoLevel, zapcore.DPanicLevel, zapcore.ErrorLevel, zapcore.PanicLevel, zapcore.DebugLevel}[e%5]
 					if mode != "multisyncer" {
 						cores = cores[:0]
 					}
